@@ -27,7 +27,7 @@ var opDeadline = 20 * time.Second
 
 // ops that bring their own, finer, hang detection (a child process with a timeout) get a wide outer limit so
 // that a loaded machine is not mistaken for a hang
-var opDeadlines = map[string]time.Duration{"conc": 400 * time.Second}
+var opDeadlines = map[string]time.Duration{"conc": 400 * time.Second, "devfind": 900 * time.Second}
 
 func runOp(line string) (res string) {
 	toks := strings.Fields(line)
